@@ -56,6 +56,13 @@ def apply_fault(tree, f):
         t[p] = data[:pos]
     elif k == "append-newline":
         t[p] = data + b"\n"
+    elif k == "cr-before-lf":      # one carriage return in front of the line feed at/after pos
+        i = data.find(b"\n", pos)
+        t[p] = data if i < 0 else data[:i] + b"\r" + data[i:]
+    elif k == "unix2dos":          # every line end converted
+        t[p] = data.replace(b"\n", b"\r\n")
+    elif k == "strip-trailing-newline":
+        t[p] = data.rstrip(b"\n")
     return t
 
 
@@ -136,6 +143,9 @@ def main(tier, seed):
                 for pos in ([1, n // 2, n - 1] if long_history else positions(n, tier, kind)):
                     faults.append({"path": p, "kind": kind, "pos": pos, "bit": (pos % 8) if kind == "flip" else 0})
             faults.append({"path": p, "kind": "append-newline"})
+            # changes an editor or a transfer in text mode makes: line ends converted (one, all), the final newline stripped
+            faults += [{"path": p, "kind": "cr-before-lf", "pos": 0}, {"path": p, "kind": "cr-before-lf", "pos": n // 2},
+                       {"path": p, "kind": "unix2dos"}, {"path": p, "kind": "strip-trailing-newline"}]
             faults += [dict(x, mt=m) for x in list(faults) if x["path"] == p and "mt" not in x and not long_history
                        for m in (("older",) if tier == "quick" else ("older", "newer"))
                        if tier == "quick" or x["kind"] != "flip" or x["pos"] % 8 == 0]
